@@ -138,6 +138,9 @@ def expand(args):
         evs = list(spec.enabled(run.worlds, run.mon))
         if _SEED:
             random.Random(hash((_SEED, len(hist), len(evs))) & 0xffffffff).shuffle(evs)
+        if _can_fork(spec, run):
+            _expand_by_fork(spec, run, hist, base, evs, children, viols, stats)
+            evs = []
         fresh = True
         for ev in evs:
             if not fresh:
@@ -170,6 +173,62 @@ def expand(args):
     stats["outcomes"] = list(stats["outcomes"])
     stats["wall"] = time.perf_counter() - t0
     return {"children": children, "stats": stats, "viols": viols}
+
+
+def _can_fork(spec, run):
+    """in-memory worlds can be copied by fork(): the child executes one event on its private copy of the live
+    world and reports back, so the parent does not have to rebuild the state by replay for every transition.
+    File-backed worlds share their files with the child, so they keep using replay."""
+    if not os.environ.get("MCX_FORK"):
+        return False        # measured: fork() of the worker (large address space) costs more than a replay here
+    return all(w.cfg["storage"] == "memory" for w in run.worlds) and getattr(spec, "fork_ok", True)
+
+
+def _expand_by_fork(spec, run, hist, base, evs, children, viols, stats):
+    import pickle
+    for ev in evs:
+        rfd, wfd = os.pipe()
+        pid = os.fork()
+        if pid == 0:
+            code = 0
+            try:
+                os.close(rfd)
+                try:
+                    results, vs = run.step(ev)
+                    out = {"evals": run.mon.evals_in_last_step, "outcome": spec.outcome(results),
+                           "viols": [v.to_json() for v in vs], "digest": None if vs else run.digest()}
+                except W.HarnessError as e:
+                    out = {"error": "HarnessError: %s" % e}
+                except BaseException as e:     # noqa
+                    out = {"error": "harness exception: %s\n%s" % (e, traceback.format_exc())}
+                data = pickle.dumps(out)
+                with os.fdopen(wfd, "wb") as f:
+                    f.write(data)
+            except BaseException:              # noqa
+                code = 3
+            finally:
+                os._exit(code)
+        os.close(wfd)
+        with os.fdopen(rfd, "rb") as f:
+            data = f.read()
+        _, status = os.waitpid(pid, 0)
+        if status != 0 or not data:
+            raise W.HarnessError("forked expansion of %r after %r died (status %r)" % (ev, hist, status))
+        out = pickle.loads(data)
+        if "error" in out:
+            raise W.HarnessError(out["error"])
+        stats["transitions"] += 1
+        stats["evals"] += out["evals"]
+        stats["outcomes"].add(_tuplify(out["outcome"]))
+        if out["viols"]:
+            for v in out["viols"]:
+                v["history"] = [list(e) for e in hist] + [list(ev)]
+                viols.append(v)
+            continue
+        if out["digest"] == base:
+            stats["selfloops"] += 1
+            continue
+        children.append((out["digest"], tuple(hist) + (tuple(ev),)))
 
 
 # ------------------------------------------------------------------ parent side
